@@ -104,7 +104,11 @@ def oracle(name, data):
     return f, ("fmtd" if f == data else "unfmt")
 
 
-BAD_BY_CONSTRUCTION.update({BAD, BAD2, TXTARBAD})
+# spec.md: a newline is "\n"; a carriage return is not a character of the language, so a text with CR LF line ends
+# does not parse, however well it is laid out otherwise
+CRLF = b'x := 1\r\nprint x\r\nif x > 0\r\n    print "pos"\r\nend\r\n'
+CRLFUNFMT = UNFMT.replace(b"\n", b"\r\n")
+BAD_BY_CONSTRUCTION.update({BAD, BAD2, TXTARBAD, CRLF, CRLFUNFMT})
 
 
 def write_inputs():
@@ -822,6 +826,10 @@ def run(chk):
     sub = [mk_run("w-subdir-%s" % m, "subdir", "write", [("d/e/a.evy", UNFMT, m)], ["-w", "d/e/a.evy"]) for m in MODES[:2]]
     sub.append(mk_run("w-abs", "abs", "write", [("a.evy", UNFMT, "0600")], ["-w", "{DIR}/a.evy"]))
     sub.append(mk_run("w-dot", "dot", "write", [("d/a.evy", UNFMT2, "0600")], ["-w", "./d/../d/a.evy"]))
+    sub.append(mk_run("w-crlf", "crlf", "write", [("c.evy", CRLF, MODES[0])], ["-w", "c.evy"]))
+    sub.append(mk_run("w-crlfunfmt", "crlfunfmt", "write", [("cu.evy", CRLFUNFMT, MODES[-1])], ["-w", "cu.evy"]))
+    orc("c.evy", CRLF)
+    orc("cu.evy", CRLFUNFMT)
     orc("d/e/a.evy", UNFMT)
     orc("a.evy", UNFMT)
     orc("d/a.evy", UNFMT2)
@@ -910,6 +918,8 @@ def check_family(chk, inputs, orc, table):
         "bad2": ("a.evy", BAD2), "empty": ("a.evy", b""), "nonl": ("a.evy", fm.rstrip(b"\n")),
         "unfmt2": ("a.evy", UNFMT2), "txtar": ("a.txtar", TXTAR), "txtarfmtd": inputs["txtarfmtd"],
         "txtarbad": ("a.txtar", TXTARBAD), "fmttrail": ("a.evy", fm + b"\n"),
+        "crlf": ("a.evy", CRLF), "crlfunfmt": ("a.evy", CRLFUNFMT), "fmtcrlf": ("a.evy", fm.replace(b"\n", b"\r\n")),
+        "fmtbom": ("a.evy", b"\xef\xbb\xbf" + fm), "fmttrailblank": ("a.evy", fm.replace(b"\n", b" \n", 1)),
     }
     labs = list(fam)
     modes = MODES if chk.tier == "thorough" else [common.pick(MODES, 1)[0]]
